@@ -111,6 +111,14 @@ func (obj *GeometricEstimator) updateEstimate() error {
     sum_g = LogAdd(sum_g, obj.sum_g[i])
     sum_g = LogAdd(sum_g, math.Log(float64(obj.sum_c[i])))
   }
+  // without any observation of positive weight the estimate is
+  // undefined (0/0), keep the current parameters
+  if math.IsInf(sum_g, -1) {
+    obj.sum_m = nil
+    obj.sum_g = nil
+    obj.sum_c = nil
+    return nil
+  }
   // compute new parameter
   //////////////////////////////////////////////////////////////////////////////
   p := NewScalar(obj.ScalarType(), math.Exp(sum_g - sum_m))
